@@ -223,6 +223,52 @@ pub mod kernels {
     }
     #[cfg(feature = "thorough")]
     c19_row!(c05_c19_t_k_tri_row_b2, 2, 7);
+
+    fn sym_tri() -> Triangle {
+        let (a, b, c) = (Point::new(small_u(2) as i32, small_u(2) as i32), Point::new(small_u(2) as i32, small_u(2) as i32), Point::new(small_u(2) as i32, small_u(2) as i32));
+        kani::assume(cross(a, b, c) != 0);
+        Triangle::new(a, b, c)
+    }
+    /// interior coverage and the one-pixel bound, one kernel call, symbolic vertices in [0,3]^2
+    #[cfg_attr(kani, kani::proof, kani::unwind(6))]
+    pub fn c19_q_k_tri_interior_b2() {
+        let t = sym_tri();
+        let q = Point::new(small_u(3) as i32 - 2, small_u(3) as i32 - 2);
+        note!("triangle", t); note!("q", q);
+        let r = hk::triangle_scanline_at(&t, q.y);
+        note!("row", r);
+        let hit = r.contains(&q.x);
+        if strictly_inside(&t, q) { check!(hit, "C19.covers_interior"); }
+        if hit { check!(within_one_pixel(&t, q), "C19.near"); }
+        reach!(strictly_inside(&t, q), "reach.interior");
+        reach!(hit && !strictly_inside(&t, q), "reach.edge_pixel");
+    }
+    /// the row does not depend on the order of the vertices (three kernel calls)
+    #[cfg_attr(kani, kani::proof, kani::unwind(6))]
+    pub fn c19_q_k_tri_order_b2() {
+        let t = sym_tri();
+        let [a, b, c] = t.vertices;
+        let y = small_u(3) as i32 - 2;
+        note!("triangle", t); note!("y", y);
+        let r = hk::triangle_scanline_at(&t, y);
+        check!(hk::triangle_scanline_at(&Triangle::new(c, a, b), y) == r, "C19.order");
+        check!(hk::triangle_scanline_at(&Triangle::new(b, a, c), y) == r, "C19.order");
+        reach!(!r.is_empty(), "reach.nonempty");
+    }
+
+    /// minimal form for the quick tier: one kernel call vs contains(), symbolic vertices in [0,3]^2
+    #[cfg_attr(kani, kani::proof, kani::unwind(6))]
+    pub fn c05_q_k_tri_row_eq_b2() {
+        let (a, b, c) = (Point::new(small_u(2) as i32, small_u(2) as i32), Point::new(small_u(2) as i32, small_u(2) as i32), Point::new(small_u(2) as i32, small_u(2) as i32));
+        let t = Triangle::new(a, b, c);
+        kani::assume(cross(a, b, c) != 0);
+        let q = Point::new(small_u(3) as i32 - 2, small_u(3) as i32 - 2);
+        note!("triangle", t); note!("q", q);
+        let r = hk::triangle_scanline_at(&t, q.y);
+        note!("row", r); note!("contains", t.contains(q));
+        check!(r.contains(&q.x) == t.contains(q), "C05.row_exact");
+        reach!(r.contains(&q.x), "reach.hit");
+    }
     #[cfg(feature = "thorough")]
     c19_row!(c05_c19_t_k_tri_row_b3, 3, 11);
 }
